@@ -30,6 +30,9 @@ def h_agg(k0: int, k1: int, k2: int, k3: int, k4: int, k5: int, n0: int, bad: in
     post: not _[1]
     """
     reset_run()
+    from .world import Item as _I
+
+    _I.BAD_EXC = ValueError if P("badexc") == "value" else TypeError
     agg = AGGS[P("agg")]
     keys = [k0, k1, k2, k3, k4, k5]
     items = []
@@ -384,10 +387,15 @@ def jobs(tier):
             for agg in ("sorted", "min", "max", "nlargest", "nsmallest"):
                 add("h_agg", agg=agg, N=3, fl=fl, b1=True, ffl="obj")
                 add("h_agg", agg=agg, N=2, fl=fl, b1=True, ffl="defaw")
-                add("h_agg", agg=agg, N=2, fl=fl, b1=True, ffl="fobj")
+                add("h_agg", agg=agg, N=2, fl=fl, b1=True, ffl="fobj", allbad=True)
         if fl != "list":
             for agg in ("nlargest", "nsmallest", "sorted", "min", "max"):
                 add("h_agg", agg=agg, N=3, fl=fl, b1=True, allbad=True)
+    for agg in ("min", "max"):
+        for fl in ("agen", "list"):
+            # comparisons that raise ValueError (the exception min/max use themselves for empty inputs)
+            for b1 in (False, True):
+                add("h_agg", agg=agg, N=3, fl=fl, b0=True, b1=b1, bad=True, badexc="value")
     add("h_agg", agg="list", N=3, fl="agen")
     add("h_agg", agg="tuple", N=3, fl="iter")
     add("h_agg", agg="list", N=3, fl="list")
